@@ -35,3 +35,99 @@ Example C05_escape_word_refuted :
   let e := ELike LLike false false (EAtom false 1) (EAtom false 2) (Some (false, 3)) in
   content (yield e) = [CWord 1; CWord 2; CWord 3] /\ content (ptoks e) = [CWord 1; CWord 2; CStr 100003].
 Proof. split; vm_compute; reflexivity. Qed.
+
+(** * The DDL core (CREATE TABLE with column definitions; DdlCore.v, DdlCoreInv.v): the tree the model parser
+    returns keeps every content token of its input.  [keep] is ANY predicate on tokens that rejects the words
+    the statement level tests as keywords (in any capitalisation) and everything that is not a word, a quoted
+    word, a number or a string; the input is a list of lexed tokens ([lexed]: both views of each token agree,
+    as in [map TT]); the result has no unquoted ESCAPE word ([dword_escape]; the known finding core:like-escape-word;
+    implied by canonical spelling, the hypothesis of [C05_core_printed]); [col_faithful]: every spelling the data
+    type parser accepts for a column's type has the content of the type's printed form (C18's side). *)
+Require SqlV.DdlCore SqlV.DdlCoreProofs SqlV.DdlCoreInv.
+Require SqlVGen.DataTypeTables SqlVGen.DdlTables SqlVGen.KeywordTable.
+Require Import Coq.Sorting.Permutation.
+
+Lemma C05_ddl_tables_ok : forall d, In d DdlTables.all_ddialects -> DdlCoreProofs.ddialect_ok d = true.
+Proof.
+  intros d H. cbn [DdlTables.all_ddialects In] in H.
+  repeat (destruct H as [H|H]; [subst d; vm_compute; reflexivity|]). destruct H.
+Qed.
+
+(** the multiset statement of the property, for the printed statement followed by the unconsumed rest *)
+Theorem C05_ddl_content : forall d (keep : DdlCore.dtok -> bool) fuel ts c rest,
+  In d DdlTables.all_ddialects ->
+  (forall t, DdlCore.kwc t <> None -> keep t = false) ->
+  (forall t, keep t = true -> DdlCoreInv.is_lit (DdlCore.tv t) = true) ->
+  DdlCore.parse_create_table_core d fuel ts = Ok (c, rest) ->
+  Forall DdlCoreInv.lexed ts -> DdlCoreInv.dword_escape c = false ->
+  Forall (DdlCoreInv.col_faithful d keep) (DdlCore.columns c) ->
+  Permutation (filter keep ts) (filter keep (DdlCore.dtoks (DdlCore.dtab d) c ++ rest)).
+Proof.
+  intros d keep fuel ts c rest Hin Hkw Hlit.
+  exact (DdlCoreInv.ddl_content d (C05_ddl_tables_ok d Hin) keep Hkw Hlit fuel ts c rest).
+Qed.
+Print Assumptions C05_ddl_content.
+
+(** ... in the order of the input when the elements are printed in input order (Display prints the column
+    definitions before the table constraints) *)
+Theorem C05_ddl_content_ordered : forall d (keep : DdlCore.dtok -> bool) fuel ts c rest,
+  In d DdlTables.all_ddialects ->
+  (forall t, DdlCore.kwc t <> None -> keep t = false) ->
+  (forall t, keep t = true -> DdlCoreInv.is_lit (DdlCore.tv t) = true) ->
+  DdlCore.parse_create_table_core d fuel ts = Ok (c, rest) ->
+  Forall DdlCoreInv.lexed ts -> DdlCoreInv.dword_escape c = false ->
+  Forall (DdlCoreInv.col_faithful d keep) (DdlCore.columns c) ->
+  exists els, (DdlCore.columns c, DdlCore.constraints c) = DdlCoreProofs.split_elems els /\
+    filter keep ts = filter keep (DdlCoreInv.dtoks_in d c els ++ rest) /\
+    (els = DdlCoreProofs.elems_of c -> filter keep ts = filter keep (DdlCore.dtoks (DdlCore.dtab d) c ++ rest)).
+Proof.
+  intros d keep fuel ts c rest Hin Hkw Hlit H Hl Hc Hf.
+  destruct (DdlCoreInv.ddl_content_ordered d (C05_ddl_tables_ok d Hin) keep Hkw Hlit fuel ts c rest H Hl Hc Hf) as (els & Hs & E).
+  exists els. split; [exact Hs|]. split; [exact E|]. intros ->. rewrite DdlCoreInv.dtoks_in_elems_of in E. exact E.
+Qed.
+Print Assumptions C05_ddl_content_ordered.
+
+(** canonical spelling implies the exclusion *)
+Lemma C05_ddl_canonical_no_word_escape : forall c, DdlCoreInv.dcanonical c = true -> DdlCoreInv.dword_escape c = false.
+Proof. exact DdlCoreInv.dcanonical_no_word_escape. Qed.
+
+(** the content predicate of the property with the crate's keyword list (keywords::ALL_KEYWORDS, regenerated):
+    it satisfies the two conditions on [keep] *)
+Definition ddl_content_tok := DdlCoreInv.content_tok KeywordTable.all_keywords.
+Lemma C05_ddl_content_tok_ok :
+  (forall t, DdlCore.kwc t <> None -> ddl_content_tok t = false) /\
+  (forall t, ddl_content_tok t = true -> DdlCoreInv.is_lit (DdlCore.tv t) = true).
+Proof.
+  split.
+  - apply DdlCoreInv.content_tok_kw. vm_compute. reflexivity.
+  - apply DdlCoreInv.content_tok_lit.
+Qed.
+
+(** the ordered statement is false of the printed statement itself: CREATE TABLE x1 (UNIQUE (x2), x3 INT)
+    prints as CREATE TABLE x1 (x3 INT, UNIQUE (x2)) *)
+Definition ddl_x n := DdlCore.EE (TAtom false n).
+Definition ddl_pre := [DdlCore.TW "CREATE"; DdlCore.TW "TABLE"; ddl_x 1; DdlCore.P_LParen].
+Definition ddl_contents d ts :=
+  match DdlCore.parse_create_table_core d (S (length ts)) ts with
+  | Ok (c, r) => Some (DdlCoreInv.dword_escape c, map DdlCore.tv (filter ddl_content_tok ts),
+                       map DdlCore.tv (filter ddl_content_tok (DdlCore.dtoks (DdlCore.dtab d) c ++ r)))
+  | _ => None
+  end.
+Example C05_ddl_content_order_refuted :
+  ddl_contents DdlTables.dd_generic
+    (ddl_pre ++ [DdlCore.TW "UNIQUE"; DdlCore.P_LParen; ddl_x 2; DdlCore.P_RParen; DdlCore.P_Comma; ddl_x 3;
+                 DdlCore.TW "INT"; DdlCore.P_RParen]) =
+  Some (false, [DataTypeRT.TWord (ident_text 1); DataTypeRT.TWord (ident_text 2); DataTypeRT.TWord (ident_text 3)],
+              [DataTypeRT.TWord (ident_text 1); DataTypeRT.TWord (ident_text 3); DataTypeRT.TWord (ident_text 2)]).
+Proof. vm_compute. reflexivity. Qed.
+(** refuted for an unquoted ESCAPE word (known finding core:like-escape-word):
+    CREATE TABLE x1 (x2 INT DEFAULT x3 LIKE x4 ESCAPE x5) prints the identifier x5 as the string 'x5' *)
+Example C05_ddl_escape_word_refuted :
+  ddl_contents DdlTables.dd_generic
+    (ddl_pre ++ [ddl_x 2; DdlCore.TW "INT"; DdlCore.TW "DEFAULT"; ddl_x 3; DdlCore.TW "LIKE"; ddl_x 4;
+                 DdlCore.TW "ESCAPE"; ddl_x 5; DdlCore.P_RParen]) =
+  Some (true, [DataTypeRT.TWord (ident_text 1); DataTypeRT.TWord (ident_text 2); DataTypeRT.TWord (ident_text 3);
+                DataTypeRT.TWord (ident_text 4); DataTypeRT.TWord (ident_text 5)],
+               [DataTypeRT.TWord (ident_text 1); DataTypeRT.TWord (ident_text 2); DataTypeRT.TWord (ident_text 3);
+                DataTypeRT.TWord (ident_text 4); DataTypeRT.TStr (ident_text 5)]).
+Proof. vm_compute. reflexivity. Qed.
